@@ -533,13 +533,39 @@ def r13_request_decoder_is_plain(ctx):
     c01.r8_classifiers_are_plain(ctx)
 
 
+def r14_null_id_is_an_id(ctx):
+    """`a response with its id`: `"id": null` is a present id (Id::Null) - a call that carries it is answered with id null.
+    No type of the library models the id of an incoming message as `Option<Id>`: serde reads JSON null into `None`
+    before Id::Null can be produced, so such a call is taken for a notification and gets no (or an empty) reply."""
+    F, R = ctx.F, ctx.R
+    n = 0
+    bad = []
+    for name, a in F.adts.items():
+        if not name.startswith("jsonrpsee_"):
+            continue
+        n += 1
+        for v in a["variants"]:
+            for f in v["fields"]:
+                if re.search(r"^std::option::Option<(jsonrpsee_types::(params::)?)?Id<", f["ty"]):
+                    bad.append((name, f["n"], f["ty"]))
+    for name, fn_, ty in bad:
+        R.bad("C15.R14", "%s.%s:option-id" % (name, fn_), "%s has a field `%s: %s`: decoding a message into it reads `\"id\": null` as `no id`, so a call with a null id is classified as a notification and is not answered with `id: null`" % (name, fn_, ty), None)
+    if not bad:
+        R.ok("C15.R14", "no-option-id", "no `Option<Id>` field in %d library types" % n)
+    R.floor("C15.R14", n, 150, "library types inspected")
+    # and the classification itself: single messages and batch entries are tried as Request, Notification, id recovery
+    from . import c01, c02
+    c01.r2_classify_once(ctx)
+    c02.r2_classifier_agreement(ctx)
+
+
 def rids_wire_ids_derive_both(ctx):
     """ids are serialised and parsed by mirror-image (derived) impls"""
     from .common import wire_ids_derive_both
     wire_ids_derive_both(ctx, "C15.IDS")
 
 
-RULES = [r1_code_tables, r2_serializer, r3_field_tables, r4_duplicate_guards, r5_acceptance_table, r6_no_handmade_json, r7_no_borrowed_str, r8_into_owned_is_fieldwise, r9_client_tries_response_first, r10_http_errors_keep_the_envelope, r11_subscription_id_numbers_are_u64, r12_derived_writers_mirror_their_readers, r13_request_decoder_is_plain, rids_wire_ids_derive_both]
+RULES = [r1_code_tables, r2_serializer, r3_field_tables, r4_duplicate_guards, r5_acceptance_table, r6_no_handmade_json, r7_no_borrowed_str, r8_into_owned_is_fieldwise, r9_client_tries_response_first, r10_http_errors_keep_the_envelope, r11_subscription_id_numbers_are_u64, r12_derived_writers_mirror_their_readers, r13_request_decoder_is_plain, r14_null_id_is_an_id, rids_wire_ids_derive_both]
 
 LEVEL_TEXT = (
     "Decision tables and structural facts extracted exactly from the type-checked serde code: the error-code tables are "
